@@ -135,6 +135,12 @@ let resolve_plan (inp : input) (s : state) (orders : (int * int list) list) (fs 
       for i = 0 to Array.length ord - 2 do
         if is_direct ord.(i) ord.(i+1) then gaps.(i+1) <- gaps.(i)
       done;
+      let route = Array.of_list (List.map (fun c -> n2i c.c_stop) (List.nth s.st_routes v)) in
+      let splits g =
+        let a = route.(g-1) and b = route.(g) in
+        let ua = unit_of_stop inp a in
+        ua >= 0 && List.exists (fun ((x, y), d) -> d && n2i x = a && n2i y = b) (get_unit inp (i2n ua)).iu_arcs in
+      if Array.exists splits gaps then None else
       let args = List.concat (List.mapi (fun i st -> [string_of_int st; string_of_int gaps.(i)]) order) in
       Some (v, args)
   | _ -> None
